@@ -251,6 +251,8 @@ var reg = vk.Registry{
 	},
 }
 
+func init() { reg["sequence"] = vk.SequenceReplayer(reg) }
+
 func TestReplay(t *testing.T) { vk.RunReplay(t, reg) }
 
 func TestPairingPerType(t *testing.T) {
@@ -269,7 +271,7 @@ func TestPairingPerType(t *testing.T) {
 				rec.Class("smpp_bind_flavour_receiver_or_transmitter")
 			}
 			rec.Sample(b.Spec.Proto, map[string]any{"spec": b.Spec.ID(), "cmd": v.Cmd, "seq": v.Seq, "new_seq": newSeq})
-			rec.Report(t, "pair", checkPair(b, v, newSeq, c))
+			rec.ReportSeq(t, "pair", c, func() *vk.Violation { return checkPair(b, v, newSeq, c) })
 		}))
 	}
 }
@@ -425,7 +427,7 @@ func TestConstructors(t *testing.T) {
 		rec.Eval()
 		rec.NonTrivial(c.Which, c.Seq, c.Node, c.Account)
 		rec.Class("constructor:" + c.Which)
-		rec.Report(t, "ctor", checkCtor(c))
+		rec.ReportSeq(t, "ctor", c, func() *vk.Violation { return checkCtor(c) })
 	})
 	_ = fmt.Sprint
 }
